@@ -3,7 +3,7 @@
 TRUSTED_BASE = [
     'Verus 0.2026.09.13 + Z3 (SMT back end)',
     'Kani 0.68 + CBMC 6.11 + CaDiCaL/kissat (for the K-refine obligations)',
-    'rxprep (tokenizer-based extractor, rules R1-R5 of DESIGN 3.2): trusted to copy text faithfully; each unit carries span + sha256',
+    'rxprep (tokenizer-based extractor, span-replacement rules R1-R14 of DESIGN 3.2 / 4.6 / 4.13): trusted to copy text faithfully; each unit carries span + sha256 + the list of replacements made',
     'contract models in /verif/models (SctlModel, ObsModel, FnModel): specification side, not extracted',
 ]
 
@@ -12,7 +12,7 @@ ASSUMPTIONS = [
     'A2 user functions passed to operators are pure, total, deterministic (FnModel); subscriber callbacks re-enter the library only by unsubscribing (prophecy `quits`)',
     'A3 generic Item fixed to i64 (Key to u8); overflow excluded by explicit requires where arithmetic is on items/counters',
     'A4 sequential execution: lock removal (R1) is sound only without concurrent threads; no schedule is explored',
-    'A5 the StreamController contract used by Verus (models/prelude.rs SctlModel) is checked against the real code by the Kani K-refine obligations of C06 for <=2 upstreams, not beyond',
+    'A5 the StreamController contract used by the operator units (models/prelude.rs SctlModel) is connected to the real code twice: the methods extracted from stream_controller.rs are verified against the same clauses with Verus for any number of upstreams (unit stream_controller, over models of the map and of the subscriber Observer), and the real type with the lock/map facade is checked by the Kani K-refine obligations of C06 for <=2 upstreams; new / new_observer (closures) only by Kani',
 ]
 
 PLAN = {
@@ -34,14 +34,14 @@ PLAN = {
         'engines': ['verus_units', 'syntactic', 'kani'],
         'technique': 'Verus postconditions on the extracted handlers of every input observer, over a ghost history of serial-tagged input events (all sequential interleavings = a universally quantified sequence)',
         'level_text': 'for merge, amb, take_until, skip_until, sample, switch_on_next: each handler of each input, from any state reachable for any interleaved history, leaves the downstream trace equal to the operator definition on the extended history and the set of still-registered inputs as defined; "register all observers before subscribing any source" is a skeleton fact',
-        'level_note': 'zip/combine_latest/sequence_equal/concat/flat_map have handlers that create closures or subscribe: not extractable, listed as not covered in the evidence; StreamController by contract; sequential',
+        'level_note': 'zip / combine_latest / sequence_equal have handlers built from iterator adapters and closures: not extractable, listed as not under contract in the evidence (bounded native harnesses for zip and sequence_equal; combine_latest and sequence_equal are open known findings); concat and flat_map subscribe inside a handler and are extracted with rule R7\' (nested handlers as units of their own); StreamController by contract; sequential',
         'design_ref': 'DESIGN.md 4.3',
     },
     'C04': {
         'engines': ['verus_units', 'kani', 'syntactic'],
         'technique': 'Verus postconditions on every extracted error handler (the same payload value is forwarded as the terminal) + materialize/dematerialize contracts + Kani contracts on the real RxError (clone/downcast identity, same payload object delivered through sink_error)',
         'level_text': 'every non-handling operator under contract forwards the error it received, unchanged, as the only further event; RxError clone/downcast_ref return the original value for all payload values; materialize/dematerialize are proved against their definitions',
-        'level_note': 'retry/retry_when/on_error_resume_next resubscribe inside a handler: not extractable; covered only by the bounded conformance harnesses where present',
+        'level_note': 'retry / retry_when / on_error_resume_next resubscribe inside a handler: extracted with rule R7\' (the nested fn do_subscribe and the nested handlers are units of their own; single-upstream discipline: the failed attempt is given up before the next one is subscribed); what a re-subscribed source emits synchronously is covered by the loose contract of subscribe_inner only',
         'design_ref': 'DESIGN.md 4.4',
     },
     'C05': {
